@@ -162,7 +162,9 @@ func NewFuncTimer(d time.Duration, site string, f func()) *TimerEntry {
 	if W != nil {
 		W.addTimer(e, int64(d))
 	} else {
-		fatalf("AfterFunc outside a simulated world")
+		if !reaping {
+			fatalf("AfterFunc outside a simulated world")
+		}
 	}
 	return e
 }
